@@ -59,3 +59,22 @@ def mutating(lst, x=0, acc=None):
     lst.append(x)
     acc.append(x)
     return (list(lst), list(acc))
+
+
+class NeedsArgs(Exception):
+    """an exception class that cannot be rebuilt from its args on the receiving side"""
+    def __init__(self, a, b):
+        super().__init__(f'{a}-{b}')
+        self.a, self.b = a, b
+
+
+def raise_needs_args(*_a):
+    raise NeedsArgs(1, 2)
+
+
+def big_result(*_a):
+    return b'x' * (1 << 20)
+
+
+def raise_keyboard_interrupt(*_a):
+    raise KeyboardInterrupt()
